@@ -223,7 +223,7 @@ func zeroOf(c Comp, t types.Type) string {
 	case SReal:
 		return "0.0"
 	case SStr:
-		return "str.empty"
+		return "0"
 	}
 	return "0"
 }
